@@ -417,6 +417,21 @@ func run(r *core.Run) int {
 			cases = append(cases, c)
 		}
 	}
+	// (3b) systematically on one shared host: a certificate with a clean list,
+	// its neighbour with a clean list or with each fault; every run made twice
+	for _, x := range crlAssign {
+		for _, focus := range []int{0, 1} {
+			group++
+			for _, other := range []string{"clean", x} {
+				plans := make([]sims.CertPlan, 2)
+				plans[focus] = mkPlan(nil, []slot{{"httph", "clean"}})
+				plans[1-focus] = mkPlan(nil, []slot{{"httph", other}})
+				c := mk(plans, "validate", "http", "", false)
+				c.Group, c.Focus, c.Again = group, focus, 1
+				cases = append(cases, c)
+			}
+		}
+	}
 	// a quarter of the multi-certificate scenarios serve every distribution point
 	// from ONE host (told apart by path): a fault on one path is not a fault of the host
 	for i, c := range cases {
@@ -425,6 +440,12 @@ func run(r *core.Run) int {
 			key = c.Group // the runs of one independence group share their URLs
 		}
 		if c.Sc.Len >= 3 && key%4 == 1 {
+			if c.Group != 0 {
+				// the runs of a group are each made twice on their own validator and
+				// fetcher; the second call's results are the ones compared (whatever a
+				// fetcher remembers about a host from the first call shows then)
+				c.Again = 1
+			}
 			for pos := range c.Sc.Plans {
 				for j, k := range c.Sc.Plans[pos].Shape.CRL {
 					if k == "http" {
